@@ -38,7 +38,7 @@ CHECKS = {
         "Every sequence of well-formed frames of length L (quick 2, thorough 3) over a 43-symbol alphabet (42 frames + the host's own reset request, which must not move the receiver state) covering all "
         "frame numbers, both reTx values, ACK/NAK/RST and RSTACK/ERROR with defined and undefined codes, from each of the "
         "8 reachable expected-number states, plus Hypothesis-generated sequences of 50-400 frames that wrap the counter "
-        "dozens of times; after each frame the upward calls and the frames written are compared with an 8-state model "
+        "dozens of times, also with several frames arriving in one read (every ordered pair enumerated); after each frame the upward calls and the frames written are compared with an 8-state model "
         "written from the statement (iff acceptance, exactly one ACK/NAK with the post-processing number, ACK when accepted).",
         "Frames are encoded by vlib/refash.py. The bound L is the limit of the exhaustive claim; longer sequences are sampled.",
         "exhaustive enumeration to a length bound + Hypothesis sequences against a counter model (history invariant)",
